@@ -52,6 +52,11 @@ func (self *Compiler) compileFn(node ast.AnalyzedFunctionDefinition) (annotation
 	self.pushScope()
 	defer self.popScope()
 
+	// `try` blocks of an enclosing function (lambdas) do not enclose this function's code.
+	outerTryDepth := self.tryDepth
+	self.tryDepth = 0
+	defer func() { self.tryDepth = outerTryDepth }()
+
 	// Compile annotations.
 	if node.Annotation != nil {
 		compiledItems := make([]CompiledAnnotation, len(node.Annotation.Items))
